@@ -179,7 +179,11 @@ def main():
     flat = []
     for r in results:
         flat.extend([r] if isinstance(r, tuple) else r)
+    import c12_nonlocal
+    flat_nl = c12_nonlocal.run_all(tier, 2 if tier == "quick" else 3)
+    flat += flat_nl
     tv.aggregate(chk, flat)
+    chk.cov["nonlocal_cases"] = len(flat_nl)
     chk.cov["queries"] = sum(o.get("nqueries", 0) for o in flat if isinstance(o, dict)) or chk.cov["queries"]
     chk.cov["regions_decided"] = chk.cov["unsat"] + chk.cov["sat_replayed"]
     chk.cov["unsat"] = chk.cov["queries"] - chk.cov["sat_replayed"] - chk.cov["inconclusive"]
@@ -192,6 +196,9 @@ def main():
                                                  CallTreeUtils.get_output_parameters,
                                                  SingleVariableAccessInfo.is_written_first)
     chk.assumptions += [
+        "non-local path (LFRic): invokes of 2-3 synthesised kernels that use the variables and routines of one shared "
+        "module; oracle = fsym execution of a driver calling the kernel bodies in invoke order (K cells each); "
+        "replay = the ExtractNode built by the real LFRicExtractTrans",
         "loops unrolled to K iterations / extents <= E from a symbolic pre-state (assumed)",
         "routines called from the region are executed (same file); their effects on the caller's variables count",
         "array-shape inquiries (LBOUND/UBOUND/SIZE) are not reads of the array's data",
